@@ -62,7 +62,9 @@ def obligations(tier, seed):
     gr = poolfam.grammar_skeletons(40 if quick else None, seed)
     lit = list(families.c16_skeletons("quick"))
     c17 = list(families.c17_two_comparisons()) + list(families.c17_constrained_range("quick")) + list(families.c17_mixed())
-    pointless = list(families.c16_pointless_skeletons())
+    # a program that looks a name up through a string (getattr(obj, 'm')) introspects its own names: outside the
+    # program class of the statement (unsafe mode deletes the method that no code mentions by name)
+    pointless = [sk for sk in families.c16_pointless_skeletons() if "getattr(" not in sk.text]
     loopv = list(poolfam.loopvar_skeletons())
     if quick:
         sks = (rnd.sample(hv, 60) + gr[:30] + rnd.sample(lit[::5], 20) + rnd.sample(c17[::6], 12) + rnd.sample(pointless[::2], 12) + loopv)
